@@ -319,6 +319,7 @@ func eventSpace(si int) {
 		{{7, 8}, {4, 4}},
 		{{0, 0}, {5, 4}, {0, 0}},
 		{{2, 2}, {24, 32}},
+		{{7, 1}, {0, 0}}, // two bars of 224 thirty-seconds: position + duration can exceed 255
 	}
 	ss := seqs[si]
 	// bar lengths under the model
@@ -336,10 +337,14 @@ func eventSpace(si int) {
 	before := 0
 	for b := range ss {
 		for _, tr := range []int{0, 1, 7} {
-			for _, pos := range []int{0, 1, lens[b] - 1} {
+			poss := []int{0, 1, lens[b] - 1}
+			if lens[b] > 128 {
+				poss = append(poss, 100)
+			}
+			for _, pos := range poss {
 				toEndBar := lens[b] - pos
 				toEndSong := total - before - pos
-				durs := []int{0, 1, toEndBar, toEndBar + 1, toEndSong}
+				durs := []int{0, 1, toEndBar, toEndBar + 1, toEndSong, 255, 200}
 				for di, d := range durs {
 					if d > 255 || d > toEndSong || d < 0 {
 						continue
@@ -390,7 +395,7 @@ func main() {
 	ctx.Assume("domain: numerators 1..24 over denominators 1,2,4,8,16,32 whose bar fits in 255 thirty-second notes; resolutions divisible by 8; durations end within the song; the order of simultaneous events is not judged (multisets per tick)")
 	n := len(allSigs())
 	ctx.Jobs("signatures", n, func(j int) { signatureSpace(j) })
-	ctx.Jobs("events", 6, func(j int) { eventSpace(j) })
+	ctx.Jobs("events", 7, func(j int) { eventSpace(j) })
 	ctx.Set("signatures", n)
 	ctx.Sample(map[string]interface{}{"song": "bars 6/8, 9/8, 12/8; note on track 7 at the last 32nd of bar 2 lasting across the bar line", "resolution": 96})
 	ctx.Guard(ctx.NontrivialCount() > 1000, "too few multi-bar songs with events")
